@@ -39,7 +39,14 @@ func (fr *Frame) siteAsserts(st *State, c *ssa.CallCommon, in ssa.Instruction, a
 		if isAfter != after {
 			continue
 		}
-		if site != name && site != ord {
+		if i := strings.Index(site, `@"`); i >= 0 {
+			// call:<callee>@"<first string literal argument, spaces written as _>": selects the call by its
+			// message rather than by its position
+			lit := strings.TrimSuffix(site[i+2:], `"`)
+			if site[:i] != name || !firstStringArgIs(c, lit) {
+				continue
+			}
+		} else if site != name && site != ord {
 			continue
 		}
 		ctx := fr.evalCtx(st, in.Block())
@@ -442,6 +449,9 @@ func (fr *Frame) applyContract(st *State, ct *Contract, callee *ssa.Function, c 
 		if ct.ReadsWorld {
 			fargs = append(fargs, pre.world)
 		}
+		if len(ct.Reads) > 0 {
+			fargs = append(fargs, ex.heapToken(pre, ct.Reads))
+		}
 		for i := range res {
 			rt := sig.Results().At(i).Type()
 			res[i] = f.App(fmt.Sprintf("fn.%s.r%d", sanitize(ct.Key()), i), ex.tm.SortOf(rt), fargs...)
@@ -657,6 +667,16 @@ func (fr *Frame) appendOp(st *State, c *ssa.CallCommon, args []*Term) *Term {
 			f.Eq(f.Select(newArr, f.Add(oldLen, j)), f.Select(addArr, f.Add(addOff, j))))))
 	}
 	ex.setComp(st, name, f.Store(e, r, newArr))
+	if name == "E.uint8" {
+		// the string view of the result is the concatenation of the string views of the operands
+		fb := func(arr, off, n *Term) *Term { return f.App("str.frombytes_", SStr, arr, off, n) }
+		so, sa := fb(oldArr, oldOff, oldLen), fb(addArr, addOff, addLen)
+		cat := ex.strConcat(so, sa)
+		ex.assume(st, f.Eq(fb(newArr, f.Int(0), newLen), cat))
+		// concatenation with an empty operand
+		ex.assume(st, f.Implies(f.Eq(addLen, f.Int(0)), f.Eq(cat, so)))
+		ex.assume(st, f.Implies(f.Eq(oldLen, f.Int(0)), f.Eq(cat, sa)))
+	}
 	cp := f.Fresh("append.cap", SInt)
 	ex.assume(st, f.And(f.Ge(cp, newLen), f.Le(cp, f.Mul(f.Int(4), f.Add(newLen, f.Int(8))))))
 	// nil stays nil when nothing is appended
